@@ -1,23 +1,29 @@
 """C10 - priority queues: highest effective priority first, FIFO among equals, lazy deletion,
-len = live tasks, empty pop/peek -> IndexError/default; Heap and Sorted (BarrelList) backends agree."""
+len = live tasks, empty pop/peek -> IndexError/default; Heap (heapq) and Sorted (BarrelList) backends agree."""
 import bisect
 import itertools
+from decimal import Decimal
+from fractions import Fraction
 
 from bv.common import Property, Failure, InfraError, CaseTimeout, time_limit, exc_name
 
 # the `default` objects handed to pop()/peek(): op ['P', i, kw] / ['K', i, kw] passes DEFAULTS[i], positionally
 # (kw=0) or as default=... (kw=1); ['P'] / ['K'] = DEFAULTS[0] positionally.  Falsy values and None matter: "return
-# the GIVEN default" must not depend on what the object is.  None of them is == to any task object (see
-# TASK_FORMS), so an observed return value is attributed to "the default" by identity first.
+# the GIVEN default" must not depend on what the object is.  None of them is == to any task object of the history:
+# a history that uses one of the FALSY tasks (0 / False / 0.0, None, '', (), frozenset(), b'') takes its defaults
+# from DEFAULTS_SAFE instead (unhashable falsy objects, ...), so an observed return value is attributed to "the
+# default" by identity first, without ever confusing it with a task.
 DEFAULTS = ['DFLT', None, 0, False, '', (), 0.0, 'k999999', 'default', [], {}, frozenset()]
-
-
-def default_of(op):
-    return DEFAULTS[op[1] % len(DEFAULTS)] if len(op) > 1 else DEFAULTS[0]
+DEFAULTS_SAFE = ['DFLT', [], {}, set(), bytearray(), 'k999999', 'default', [None], (None,), 0.5, -1, [0]]
+assert len(DEFAULTS) == len(DEFAULTS_SAFE)
 
 
 def default_idx(op):
     return op[1] % len(DEFAULTS) if len(op) > 1 else 0
+
+
+def default_of(op, safe=False):
+    return (DEFAULTS_SAFE if safe else DEFAULTS)[default_idx(op)]
 
 
 # task id -> the hashable objects standing for it (all == and hash-equal within one id)
@@ -30,7 +36,15 @@ TASK_FORMS = {
     5: [('n',)],
     6: [b'six'],
     7: [-7, -7.0],
+    # falsy tasks: "arbitrary hashable tasks" includes them, and the tombstone sentinel is falsy as well
+    90: [0, 0.0, False, -0.0],
+    91: [None],
+    92: [''],
+    93: [()],
+    94: [frozenset()],
+    95: [b''],
 }
+FALSY_IDS = (90, 91, 92, 93, 94, 95)
 
 
 def task_obj(tid, form=0):
@@ -49,7 +63,7 @@ def task_id(obj):
     """inverse of task_obj (by ==/hash); None if the object is not a task we handed in"""
     try:
         if obj in _TASK_ID:
-            # 1 / True / 1.0 and 2 / 2.0 collapse by hash; the other forms are distinct keys
+            # 1 / True / 1.0, 2 / 2.0, 0 / False / 0.0 collapse by hash; the other forms are distinct keys
             return _TASK_ID[obj]
     except TypeError:
         return None
@@ -58,13 +72,73 @@ def task_id(obj):
     return None
 
 
-def eff(p):
-    """effective priority of the documented default priority_key: float(priority or 0); higher pops first"""
-    return float(p or 0)
+def uses_falsy(case):
+    ops = case['ops'] + (case['twin']['ops'] if case.get('twin') else [])
+    return any(op[0] in 'ar' and op[1] in FALSY_IDS for op in ops)
+
+
+def prio_obj(p):
+    """priorities travel JSON-able: ['F', num, den] = Fraction, ['D', 'text'] = Decimal, anything else as is"""
+    if isinstance(p, list):
+        if p[0] == 'F':
+            return Fraction(p[1], p[2])
+        return Decimal(p[1])
+    return p
+
+
+# custom priority_key functions (constructor argument).  The queue pops the LOWEST key first (the default key
+# negates), so the effective priority of the statement is -key(priority).
+KEYS = {
+    'ident': lambda p: p,                              # smaller number first; only int/float/bool priorities
+    'affine': lambda p: 1.0 - 2.0 * float(p or 0),     # same order as the default key
+    'absd': lambda p: abs(float(p or 0) - 1.0),        # closest to 1 first (not monotone)
+    'coarse': lambda p: -int(float(p or 0)),           # truncation: many ties, FIFO decides
+}
+
+
+def eff(p, key=None):
+    """effective priority (higher pops first): float(priority or 0) for the documented default key,
+    -key(priority) for a custom one"""
+    v = prio_obj(p)
+    if key is None:
+        return float(v or 0)
+    return -KEYS[key](v)
+
+
+def _dyadic(x):
+    """exact value of an int/bool/float as 'm/e' meaning m / 2**e"""
+    if isinstance(x, float):
+        num, den = x.as_integer_ratio()
+        return '%d/%d' % (num, den.bit_length() - 1)
+    return '%d/0' % int(x)
+
+
+def prio_token(p, key=None):
+    """what the Lean driver is told about the priority argument: the argument itself for None / bool / int /
+    float (the model evaluates float(priority or 0)); for Fraction / Decimal the float Python computes; for a
+    custom key the exact number key(priority)"""
+    v = prio_obj(p)
+    if key is not None:
+        return 'X' + _dyadic(KEYS[key](v))
+    if v is None:
+        return 'N'
+    if v is True:
+        return 'T'
+    if v is False:
+        return 'F'
+    if type(v) is int:
+        return 'I%d' % v
+    if type(v) is float:
+        return 'D' + _dyadic(v)
+    return 'D' + _dyadic(float(v or 0))
 
 
 SMALL_PRIOS = [None, 0, 1, 2, 3, 5, -1, -4, 2.5, 0.5, -0.5, True, False, 1.0, 2.0, -0.0, 10,
                2 ** 53, 2 ** 53 + 1, 1e-9, -1e300]
+# more argument kinds and values that differ only beyond 6 decimals / beyond 53 bits
+MORE_PRIOS = [['F', 1, 3], ['F', -7, 2], ['F', 0, 1], ['D', '2.5'], ['D', '0'], ['D', '-0.125'], 1e-7, 2e-7,
+              0.1 + 0.2, 0.3, 2 ** 53 + 2, 2 ** 53 + 3, -(2 ** 53) - 1, 2 ** 60 + 1, 2 ** 60, 1 - 2 ** -53, 1 + 2 ** -52]
+NUM_PRIOS = [p for p in SMALL_PRIOS if p is not None] + [1e-7, 2e-7, 0.3, 0.1 + 0.2, 2 ** 53 + 2]   # for key 'ident'
 
 
 class C10(Property):
@@ -74,24 +148,33 @@ class C10(Property):
     RULE = ('a case is one whole history. kind Q: add/re-add/remove/pop/peek/len (without default and with each of 12 default objects incl. None, 0, False, '', (), [] - positional and by keyword) run on '
             'SortedPriorityQueue and HeapPriorityQueue with BarrelList._size_factor set to sf (1,2,3,4,6 force many '
             'sub-lists at small sizes; 1520 = shipped value), every return value / exception class recorded, most '
-            'histories end with a full drain. kind B: BarrelList driven directly with the calls the sorted queue makes '
-            '(insert at 0..len, pop(0), bl[i] for i<len, len). Exhaustive: all Q histories of <= 4 ops over 2 tasks x 2 '
-            'priorities (+drain) at sf=1, all B histories <= 6 ops at sf 1,2; seeded random histories (10-400 ops, many '
-            'equal priorities, aliasing task objects 1/1.0/True); adversarial (ascending = insert at the very end, '
-            'descending, all-equal, re-add storms, tombstones at the head); large queues (model-checked up to '
-            'MODEL_MAX adds, beyond that oracle only: 25k quick / 60k thorough entries at the shipped size factor). '
+            'histories end with a full drain. Arguments: tasks of mixed types with aliases (1/1.0/True) and the FALSY '
+            'tasks 0/False/0.0, None, \'\', (), frozenset(), b\'\'; priorities None / omitted / keyword, bool, int (also '
+            'beyond 2**53), float (also differing only at 1e-9), Fraction, Decimal; optionally a custom priority_key '
+            '(4 functions) and a SECOND instance of the same class, created first, with its own key, working interleaved '
+            '(checked by the oracle as well). kind B: BarrelList driven directly with the calls the sorted queue makes '
+            '(insert at 0..len, pop(0), bl[i] for i<len, len). kind H: the standard library heapq.heappush/heappop (what '
+            'HeapPriorityQueue runs on) on a list of small ints, the whole list observed after every call. Order of generation: ~60 hand-written '
+            'micro histories (unusual arguments, undrained queue then a fresh one, peek/remove/peek, tombstone left '
+            'behind an emptied queue, keys, twin instance), 150 flavoured random histories, adversarial small, all H '
+            'histories <= 5 ops over 3 values + 400 random, all Q histories <= 3 ops over two falsy tasks, all Q '
+            'histories of <= 4 ops over 2 tasks x 2 priorities (+drain) at sf=1, all B histories <= 6 ops at sf 1,2; '
+            'adversarial large (ascending = insert at the very end, descending, all-equal, re-add storms, tombstones '
+            'at the head); large queues (model-checked up to MODEL_MAX adds, beyond that oracle only: 25k quick / 60k '
+            'thorough entries at the shipped size factor); seeded random histories (3-400 ops, many equal priorities). '
             'Non-trivial = Q: sorted backend split into >= 2 sub-lists AND a pop was decided by FIFO among equal '
-            'priorities AND a re-add or remove happened; B: >= 2 sub-lists. distinct = distinct histories.')
+            'priorities AND a re-add or remove happened; B: >= 2 sub-lists; H: >= 4 calls. distinct = distinct histories.')
     ASSUMPTIONS = [
-        'tasks are hashable with == consistent with hash; priorities are None or finite real numbers (no NaN); '
-        'default priority_key (-float(priority or 0))',
-        'the model receives each priority as the rank of float(priority or 0) among the priorities of the history '
-        '(order-isomorphic; computed by the harness)',
-        'heapq is trusted: the Lean theorems hold for every backend satisfying the min-queue laws (C10.Lawful); the '
-        'driver runs an executable bag-with-extract-min in its place',
+        'tasks are hashable with == consistent with hash; priorities are None or finite real numbers (no NaN, '
+        '|int| < 2**1024); priority_key = the documented default (-float(priority or 0)) or one of 4 total functions',
+        'the Lean driver receives every None/bool/int/float priority as passed to add() (floats as their exact dyadic '
+        'value) and evaluates float(priority or 0) itself; only for Fraction/Decimal priorities and for a custom '
+        'priority_key the harness passes the number Python computed (exactly)',
+        'heapq is modelled by its Python reference implementation (heappush/heappop with _siftdown/_siftup, as written); '
+        'that the C accelerator behaves like it is checked by the H cases (list layout after every call), not proved',
         '_cur_size_limit is a parameter of the model (any function of the length); the driver evaluates the float formula',
     ]
-    CORRESPONDENCE_NAME = 'C10.Driver (PQ over sortedBackend/listHeap, BL) vs boltons.queueutils + boltons.listutils.BarrelList'
+    CORRESPONDENCE_NAME = 'C10.Driver (PQ over sortedBackend/binHeap with the default key evaluated in Lean, BL, heappush/heappop) vs boltons.queueutils + boltons.listutils.BarrelList + stdlib heapq'
 
     def __init__(self, tier, seed):
         super().__init__(tier, seed)
@@ -101,7 +184,12 @@ class C10(Property):
     # ------------------------------------------------------------------ generation
     def cases(self, budget_s):
         rng = self.rng
+        yield from self.micro()
+        for _ in range(150):
+            yield self.random_q(rng, flavour=True)
         yield from self.adversarial(rng, small=True)
+        yield from self.heap_cases(rng)
+        yield from self.exhaustive_q(3, tasks=(90, 91))
         yield from self.exhaustive_q(4)
         yield from self.exhaustive_b(6 if not self.thorough else 7)
         yield from self.adversarial(rng, small=False)
@@ -113,9 +201,11 @@ class C10(Property):
                 yield self.random_b(rng)
         if self.thorough:
             yield from self.exhaustive_q(5)
+            yield from self.exhaustive_q(4, tasks=(92, 90))
 
     def deep_cases(self, budget_s):
         rng = self.rng
+        yield from self.micro()
         yield from self.adversarial(rng, small=True)
         yield from self.adversarial(rng, small=False)
         yield from self.exhaustive_q(4)
@@ -126,8 +216,91 @@ class C10(Property):
 
     DRAIN = [['P'], ['P', 3, 1], ['P', 2, 0], ['K', 1, 1], ['P', 1, 0], ['n']]
 
-    def exhaustive_q(self, L):
-        alpha = [['a', t, p] for t in (0, 1) for p in (0, 1)] + [['r', 0], ['r', 1], ['p'], ['k'], ['n']]
+    def micro(self):
+        """hand-written tiny histories, run first: unusual-but-legal arguments (falsy tasks, None / omitted /
+        keyword priorities, priorities that differ only beyond 6 decimals or beyond 53 bits, Fraction / Decimal),
+        histories that are NOT drained followed by a fresh queue, stale-cache shapes (peek, remove, peek),
+        counter re-use shapes (tombstone left behind an emptied queue), custom priority_key, and a second
+        instance of the same class working interleaved (class-level state would leak)"""
+        def q(ops, sf=1, **kw):
+            return dict({'k': 'Q', 'sf': sf, 'ops': ops}, **kw)
+        drain = [['p'], ['P', 3, 1], ['K', 1, 1], ['P', 1, 0], ['n']]
+        # not drained, then a fresh queue must be empty
+        yield q([['a', 1, 1], ['a', 20, 0], ['n']])
+        yield q([['n'], ['k'], ['P', 1, 1], ['r', 1], ['r', 20]])
+        # falsy tasks
+        for fid in FALSY_IDS:
+            nforms = len(TASK_FORMS[fid])
+            yield q([['a', fid, 1], ['a', 20, 0], ['n'], ['k'], ['p'], ['n'], ['p']] + drain)
+            yield q([['a', 20, 1], ['a', fid, 0, nforms - 1], ['n'], ['p'], ['k'], ['K', 4, 1], ['p']] + drain, sf=2)
+            yield q([['a', fid, 0], ['a', 21, 0], ['r', fid, 1], ['a', fid, 0], ['p'], ['p']] + drain)
+            yield q([['a', fid, None, 0, 2], ['r', fid], ['P', 0, 1], ['a', fid, 2, 1, 1], ['k'], ['n'], ['p']] + drain)
+        yield q([['a', f, 1] for f in FALSY_IDS] + [['n']] + [['p']] * 6 + drain, sf=1)
+        yield q([['a', f, i % 2] for i, f in enumerate(FALSY_IDS)] + [['r', 91], ['a', 93, 1]] + [['p']] * 6 + drain, sf=2)
+        # None / omitted / keyword priority, re-add with None
+        yield q([['a', 1, 5], ['a', 1, None], ['a', 2, 2], ['p'], ['p']] + drain)
+        yield q([['a', 1, 5], ['a', 2, 2, 0, 1], ['a', 1, None, 0, 2], ['p'], ['p']] + drain)
+        yield q([['a', 1, -1], ['a', 2, None, 0, 2], ['a', 3, 0, 0, 1], ['a', 4, False], ['a', 5, -0.0]] + [['p']] * 5 + drain)
+        # priorities that differ only a little / not at all as floats
+        yield q([['a', 1, 0], ['a', 2, 1e-9], ['p'], ['p']] + drain)
+        yield q([['a', 1, 1e-7], ['a', 2, 2e-7], ['a', 3, 0.3], ['a', 4, 0.1 + 0.2]] + [['p']] * 4 + drain)
+        yield q([['a', 1, 2 ** 53], ['a', 2, 2 ** 53 + 1], ['a', 3, 2 ** 53 + 2], ['a', 4, 2 ** 53 + 3], ['a', 5, 2 ** 53 + 4]] + [['p']] * 5 + drain)
+        yield q([['a', 1, -(2 ** 53) - 1], ['a', 2, -(2 ** 53)], ['a', 3, 2 ** 60 + 1], ['a', 4, 2 ** 60], ['a', 5, 1 - 2 ** -53], ['a', 6, 1]] + [['p']] * 6 + drain)
+        yield q([['a', 1, ['F', 1, 3]], ['a', 2, 1 / 3], ['a', 3, ['D', '0.5']], ['a', 4, ['F', 0, 1]], ['a', 5, None], ['a', 6, ['D', '0']]] + [['p']] * 6 + drain)
+        yield q([['a', 1, True], ['a', 2, 1], ['a', 3, 1.0], ['a', 4, False], ['a', 5, None], ['a', 6, 0.0]] + [['p']] * 6 + drain)
+        # stale caches: peek / remove / peek, peek / re-add lower / peek, pop then peek
+        yield q([['a', 1, 5], ['a', 2, 1], ['k'], ['r', 1], ['k'], ['p'], ['k']] + drain)
+        yield q([['a', 1, 5], ['a', 2, 1], ['k'], ['a', 1, 0], ['k'], ['n'], ['p'], ['k']] + drain)
+        yield q([['a', 1, 5], ['a', 2, 1], ['a', 3, 3], ['r', 3], ['p'], ['k'], ['n']] + drain)
+        # a tombstone left behind a logically empty queue, then new entries (counter / length re-use)
+        yield q([['a', 1, 5], ['a', 2, 1], ['r', 2], ['p'], ['n'], ['a', 3, 1], ['a', 4, 1], ['n']] + [['p']] * 2 + drain)
+        yield q([['a', 1, 1], ['a', 2, 1], ['p'], ['a', 3, 1], ['a', 1, 1], ['r', 2], ['a', 2, 1]] + [['p']] * 3 + drain, sf=2)
+        yield q([['a', 1, 1], ['r', 1], ['a', 2, 1], ['a', 3, 1], ['r', 2], ['a', 4, 1], ['k'], ['n']] + [['p']] * 2 + drain)
+        # mass removal away from the head (any eager clean-up of tombstones must keep the order), then drain
+        for sf, n in ((1, 24), (4, 48)):
+            ops = [['a', 10 + i, (i * 7) % 11] for i in range(n)] + [['r', 10 + i] for i in range(n) if i % 4]
+            yield q(ops + [['n'], ['k']] + [['p']] * (n // 4 + 1) + drain, sf=sf)
+            ops = [['a', 10 + i, (i * 5) % 3] for i in range(n)] + [['r', 10 + i] for i in range(n - 1, -1, -1) if i % 5]
+            ops += [['a', 10 + i, 1] for i in range(0, n, 2)]
+            yield q(ops + [['n']] + [['p']] * (n // 2 + 1) + drain, sf=sf)
+        # custom priority_key
+        for key in sorted(KEYS):
+            yield q([['a', 1, 1], ['a', 2, 3], ['a', 3, -2.5], ['a', 4, 3.5], ['a', 5, 1], ['a', 2, 0.5], ['n']] + [['p']] * 5 + drain, key=key)
+        # interleaved second instance (created first), with and without a key of its own
+        tw = [['a', 1, 9], ['a', 7, 1], ['a', 20, 4], ['n'], ['p'], ['r', 7], ['k'], ['a', 2, 2], ['p'], ['p'], ['P', 1, 1], ['n']]
+        main = [['a', 1, 1], ['a', 2, 3], ['n'], ['a', 3, 2], ['k'], ['p'], ['r', 1], ['p'], ['n'], ['p'], ['P', 2, 0]]
+        yield q(main, twin={'key': None, 'ops': tw})
+        yield q(main, twin={'key': 'ident', 'ops': tw})
+        yield q(main, key='absd', twin={'key': None, 'ops': tw}, sf=2)
+        yield q(main[:4], twin={'key': 'coarse', 'ops': tw[:3]})     # both left non-empty
+
+    def heap_cases(self, rng):
+        """kind H: the standard library's heapq.heappush / heappop on a list of small ints with many ties; the
+        whole list is observed after every call (ties the model's sift loops to the heapq HeapPriorityQueue uses)"""
+        def rec(prefix, ln, depth):
+            if prefix:
+                yield prefix
+            if depth == 0:
+                return
+            for v in (0, 1, 2):
+                yield from rec(prefix + [['u', v]], ln + 1, depth - 1)
+            yield from rec(prefix + [['o']], max(0, ln - 1), depth - 1)
+        for ops in rec([], 0, 5 if not self.thorough else 7):
+            yield {'k': 'H', 'ops': ops}
+        for i in range(400 if not self.thorough else 6000):
+            n = rng.randint(5, 120)
+            hi = rng.choice([2, 5, 30, 1000])
+            w = rng.choice([0.5, 0.65, 0.8])
+            ops = [['u', rng.randrange(hi)] if rng.random() < w else ['o'] for _ in range(n)]
+            if rng.random() < 0.5:
+                ops += [['o']] * (n // 2)
+            yield {'k': 'H', 'ops': ops}
+        for n in (50, 300):
+            yield {'k': 'H', 'ops': [['u', i] for i in range(n)] + [['o']] * (n + 1)}
+            yield {'k': 'H', 'ops': [['u', n - i] for i in range(n)] + [['o']] * n}
+
+    def exhaustive_q(self, L, tasks=(0, 1)):
+        alpha = [['a', t, p] for t in tasks for p in (0, 1)] + [['r', tasks[0]], ['r', tasks[1]], ['p'], ['k'], ['n']]
         for n in range(0, L + 1):
             for hist in itertools.product(alpha, repeat=n):
                 yield {'k': 'Q', 'sf': 1, 'ops': [list(o) for o in hist] + self.DRAIN}
@@ -175,11 +348,33 @@ class C10(Property):
                 ops.append(['n'])
         return {'k': 'B', 'sf': sf, 'ops': ops, 'obs_all': 1 if n <= 40 else 0}
 
-    def random_q(self, rng, big=False):
+    def random_q(self, rng, big=False, flavour=None):
+        """flavour: falsy tasks / custom key / interleaved twin / unusual priority kinds; None = sometimes"""
+        case = self._random_q(rng, big, rng.choice([None, 'ident', 'affine', 'absd', 'coarse'])
+                              if (flavour or rng.random() < 0.12) and rng.random() < 0.5 else None,
+                              more=bool(flavour) or rng.random() < 0.2)
+        if (flavour or rng.random() < 0.2) and rng.random() < 0.6:
+            # remap some task ids to the falsy tasks
+            ids = sorted({op[1] for op in case['ops'] if op[0] in 'ar'})
+            rng.shuffle(ids)
+            remap = dict(zip(ids, rng.sample(FALSY_IDS, min(len(ids), rng.randint(1, 6)))))
+            for op in case['ops']:
+                if op[0] in 'ar' and op[1] in remap:
+                    op[1] = remap[op[1]]
+        if (flavour or rng.random() < 0.1) and rng.random() < 0.5:
+            tkey = rng.choice([None, None, 'ident', 'affine', 'absd', 'coarse'])
+            case['twin'] = {'key': tkey, 'ops': self._random_q(rng, False, tkey, more=True, drain=rng.random() < 0.5)['ops']}
+        return case
+
+    def _random_q(self, rng, big, key, more=False, drain=None):
         sf = rng.choice([1, 2, 3, 4, 4, 6, 1520])
         n = rng.randint(40, 400) if big else rng.randint(3, 60)
         ntasks = rng.choice([2, 3, 5, 9, 30]) if not big else rng.choice([8, 40, 200])
         pstyle = rng.choice(['one', 'two', 'few', 'few', 'small', 'float'])
+        if key == 'ident':
+            pstyle = rng.choice(['num', 'float'])
+        elif more and rng.random() < 0.5:
+            pstyle = 'more'
         if pstyle == 'one':
             pool = [rng.choice(SMALL_PRIOS)]
         elif pstyle == 'two':
@@ -188,6 +383,10 @@ class C10(Property):
             pool = [None, 0, 1, 1.0, 2, 2, 5]
         elif pstyle == 'small':
             pool = SMALL_PRIOS
+        elif pstyle == 'more':
+            pool = rng.sample(SMALL_PRIOS + MORE_PRIOS, rng.randint(2, 8))
+        elif pstyle == 'num':
+            pool = rng.sample(NUM_PRIOS, rng.randint(1, 6))
         else:
             pool = None
         w_add, w_readd, w_rem, w_pop, w_peek, w_len = (rng.choice([1, 3, 6]), rng.choice([0, 1, 3]), rng.choice([0, 1, 3]),
@@ -219,10 +418,13 @@ class C10(Property):
                 ops.append(self._take(rng, 'k'))
             else:
                 ops.append(['n'])
-        if rng.random() < 0.8:
+        if (rng.random() < 0.8) if drain is None else drain:
             ops += [self._take(rng, 'p', 1.0) for _ in range(len(set(maybe_live)) + 1)]
             ops += [self._take(rng, 'k', 1.0), self._take(rng, 'p', 1.0), ['n']]
-        return {'k': 'Q', 'sf': sf, 'ops': ops}
+        case = {'k': 'Q', 'sf': sf, 'ops': ops}
+        if key:
+            case['key'] = key
+        return case
 
     @staticmethod
     def _take(rng, kind, p_default=0.5):
@@ -237,6 +439,9 @@ class C10(Property):
         op = ['a', t, p]
         if t in TASK_FORMS and rng.random() < 0.3:
             op.append(rng.randrange(3))
+        if rng.random() < 0.15:
+            # call style: 1 = add(task, priority=p), 2 = add(task) (only when the priority is None)
+            op += [0] * (4 - len(op)) + [2 if p is None and rng.random() < 0.7 else 1]
         ops.append(op)
 
     def adversarial(self, rng, small):
@@ -301,6 +506,8 @@ class C10(Property):
     # ------------------------------------------------------------------ model line
     def line(self, case):
         ops = case['ops']
+        if case['k'] == 'H':
+            return ' '.join(['H'] + ['u%d' % op[1] if op[0] == 'u' else 'o' for op in ops])
         if case['k'] == 'B':
             toks = ['B', str(case['sf'])]
             ln = 0
@@ -323,11 +530,11 @@ class C10(Property):
             return ' '.join(toks)
         if sum(1 for op in ops if op[0] == 'a') > self.MODEL_MAX:
             return None
-        ranks = {e: i for i, e in enumerate(sorted({eff(op[2]) for op in ops if op[0] == 'a'}))}
+        key = case.get('key')
         toks = ['Q', str(case['sf'])]
         for op in ops:
             if op[0] == 'a':
-                toks.append('a%d:%d' % (op[1], ranks[eff(op[2])]))
+                toks.append('a%d:%s' % (op[1], prio_token(op[2], key)))
             elif op[0] == 'r':
                 toks.append('r%d' % op[1])
             elif op[0] in ('p', 'k', 'n'):
@@ -345,7 +552,9 @@ class C10(Property):
             saved = listutils.BarrelList._size_factor
         except Exception as e:   # a broken module is an observation, not a crash of the check
             x = 'X' + exc_name(e)
-            return {'out': [x], 'maxlists': 1} if case['k'] == 'B' else {'S': [x], 'H': [x], 'lists_at_end': 1}
+            return {'out': [x], 'maxlists': 1} if case['k'] in 'BH' else {'S': [x], 'H': [x], 'lists_at_end': 1}
+        if case['k'] == 'H':
+            return self._impl_h(case)
         listutils.BarrelList._size_factor = case['sf']
         try:
             if case['k'] == 'B':
@@ -353,6 +562,40 @@ class C10(Property):
             return self._impl_q(case)
         finally:
             listutils.BarrelList._size_factor = saved
+
+    @staticmethod
+    def _show(lst):
+        return '.'.join(str(v) if type(v) is int else '?%r' % (v,) for v in lst) if lst else '~'
+
+    def _impl_h(self, case):
+        out = []
+        try:
+            import heapq
+            # the standard library's functions themselves (what HeapPriorityQueue imports today); deliberately NOT
+            # looked up through boltons: the layout of a heap list is no observable of the queue classes, so a
+            # boltons that chose another correct heap routine must not trip this family
+            push, pop = heapq.heappush, heapq.heappop
+            with time_limit(10):
+                h = []
+                for op in case['ops']:
+                    try:
+                        if op[0] == 'u':
+                            r = push(h, op[1])
+                            out.append(self._show(h) if r is None else '?%r' % (r,))
+                        else:
+                            r = pop(h)
+                            out.append('%s|%s' % (self._val(r), self._show(h)))
+                    except IndexError:
+                        out.append('E')
+                    except CaseTimeout:
+                        raise
+                    except Exception as e:
+                        out.append('X' + exc_name(e))
+        except CaseTimeout:
+            out.append('TIMEOUT')
+        except Exception as e:
+            out.append('X' + exc_name(e))
+        return {'out': out, 'maxlists': 1}
 
     def _impl_b(self, case):
         from boltons.listutils import BarrelList
@@ -409,55 +652,85 @@ class C10(Property):
     def _val(v):
         return str(v) if type(v) is int else '?%r' % (v,)
 
+    @staticmethod
+    def _apply(q, op, safe):
+        """one public call on the real queue -> its observation (return value / exception class)"""
+        kind = op[0]
+        try:
+            if kind == 'a':
+                t = task_obj(op[1], op[3] if len(op) > 3 else 0)
+                style = op[4] if len(op) > 4 else 0
+                pr = prio_obj(op[2])
+                if style == 2 and pr is None:
+                    r = q.add(t)
+                elif style == 1:
+                    r = q.add(t, priority=pr)
+                else:
+                    r = q.add(t, pr)
+                return '-' if r is None else '?%r' % (r,)
+            if kind == 'r':
+                r = q.remove(task_obj(op[1], op[2] if len(op) > 2 else 0))
+                return '-' if r is None else '?%r' % (r,)
+            if kind in 'pPkK':
+                f = q.pop if kind in 'pP' else q.peek
+                if kind in 'PK':
+                    d = default_of(op, safe)
+                    r = f(default=d) if len(op) > 2 and op[2] else f(d)
+                    if r is d:
+                        return 'd%d' % default_idx(op)
+                else:
+                    r = f()
+                t = task_id(r)
+                return 't%d' % t if t is not None else '?%r' % (r,)
+            if kind == 'n':
+                r = len(q)
+                return 'n%d' % r if type(r) is int else '?%r' % (r,)
+            raise InfraError('unknown Q op %r' % (op,))
+        except (CaseTimeout, InfraError):
+            raise
+        except Exception as e:
+            return exc_name(e)
+
+    @staticmethod
+    def _make(cls, key):
+        return cls(priority_key=KEYS[key]) if key else cls()
+
     def _impl_q(self, case):
         from boltons.queueutils import SortedPriorityQueue, HeapPriorityQueue
         res = {}
         maxlists = 1
+        safe = uses_falsy(case)
+        twin = case.get('twin')
         for name, cls in (('S', SortedPriorityQueue), ('H', HeapPriorityQueue)):
-            out = []
+            out, out2 = [], []
             try:
                 with time_limit(10 if len(case['ops']) < 20000 else 120):
-                    q = cls()
-                    for op in case['ops']:
-                        kind = op[0]
-                        try:
-                            if kind == 'a':
-                                r = q.add(task_obj(op[1], op[3] if len(op) > 3 else 0), op[2])
-                                out.append('-' if r is None else '?%r' % (r,))
-                            elif kind == 'r':
-                                r = q.remove(task_obj(op[1], op[2] if len(op) > 2 else 0))
-                                out.append('-' if r is None else '?%r' % (r,))
-                            elif kind in 'pPkK':
-                                f = q.pop if kind in 'pP' else q.peek
-                                if kind in 'PK':
-                                    d = default_of(op)
-                                    r = f(default=d) if len(op) > 2 and op[2] else f(d)
-                                    if r is d:
-                                        out.append('d%d' % default_idx(op))
-                                        continue
-                                else:
-                                    r = f()
-                                t = task_id(r)
-                                out.append('t%d' % t if t is not None else '?%r' % (r,))
-                            elif kind == 'n':
-                                r = len(q)
-                                out.append('n%d' % r if type(r) is int else '?%r' % (r,))
-                        except CaseTimeout:
-                            raise
-                        except Exception as e:
-                            out.append(exc_name(e))
+                    # the second instance (if any) is created FIRST and works interleaved with the observed one
+                    q2 = self._make(cls, twin.get('key')) if twin else None
+                    q = self._make(cls, case.get('key'))
+                    tops = twin['ops'] if twin else []
+                    for i, op in enumerate(case['ops']):
+                        out.append(self._apply(q, op, safe))
+                        if i < len(tops):
+                            out2.append(self._apply(q2, tops[i], safe))
+                    for op in tops[len(case['ops']):]:
+                        out2.append(self._apply(q2, op, safe))
                     if name == 'S':
                         maxlists = len(getattr(getattr(q, '_pq', None), 'lists', ()) or ())
             except CaseTimeout:
                 out.append('TIMEOUT')
+            except InfraError:
+                raise
             except Exception as e:
                 out.append('X' + exc_name(e))
             res[name] = out
+            if twin:
+                res[name + '2'] = out2
         res['lists_at_end'] = maxlists
         return res
 
     def render(self, case, obs):
-        if case['k'] == 'B':
+        if case['k'] in 'BH':
             return ','.join(obs['out'])
         return 'S=' + ','.join(obs['S']) + ' H=' + ','.join(obs['H'])
 
@@ -466,7 +739,45 @@ class C10(Property):
         self._nt = False
         if case['k'] == 'B':
             return self._oracle_b(case, obs)
+        if case['k'] == 'H':
+            return self._oracle_h(case, obs)
         return self._oracle_q(case, obs)
+
+    def _oracle_h(self, case, obs):
+        """what the queue needs from heapq: heappop returns a least item and removes exactly it, heappush adds
+        exactly the item, IndexError exactly on the empty list, and the list stays a heap (parent <= child)"""
+        bag = []            # sorted multiset
+        got = obs['out']
+        self.stats['H_ops'] = self.stats.get('H_ops', 0) + len(case['ops'])
+        for i, op in enumerate(case['ops']):
+            if i >= len(got):
+                return Failure('heapq', 'heapq history: no observation for op #%d' % i)
+            g = got[i]
+            if op[0] == 'u':
+                bisect.insort(bag, op[1])
+                lst = g
+                want_val = None
+            else:
+                if not bag:
+                    if g != 'E':
+                        return Failure('heapq', 'heappop on an empty list gave %s, expected IndexError' % g)
+                    continue
+                want_val = str(bag.pop(0))
+                val, _, lst = g.partition('|')
+                if val != want_val:
+                    return Failure('heapq', 'heappop #%d returned %s, the least item is %s' % (i, val, want_val))
+            try:
+                items = [] if lst == '~' else [int(v) for v in lst.split('.')]
+            except ValueError:
+                return Failure('heapq', 'heapq op #%d left %s' % (i, g))
+            if sorted(items) != bag:
+                return Failure('heapq', 'heapq op #%d %r left the items %s, expected a permutation of %s' % (i, op, items[:20], bag[:20]))
+            if any(items[(j - 1) // 2] > items[j] for j in range(1, len(items))):
+                return Failure('heapq', 'heapq op #%d %r left a list that is not a heap: %s' % (i, op, items[:20]))
+        if len(got) != len(case['ops']):
+            return Failure('heapq', 'heapq history produced %d observations for %d ops' % (len(got), len(case['ops'])))
+        self._nt = len(case['ops']) >= 4
+        return None
 
     def _oracle_b(self, case, obs):
         """the sorted queue relies on BarrelList behaving like a plain list for insert(0..len), pop(0), bl[i], len"""
@@ -500,79 +811,104 @@ class C10(Property):
                            % (len(got), len(exp), got[-1:] and got[-1]))
         return None
 
+    def _oracle_stream(self, label, sf, ops, got, key, flags):
+        """the property statement, executed literally on one queue's history: a dict of live tasks with
+        (effective priority, arrival number); pop/peek = greatest priority, earliest arrival among equals"""
+        live = {}            # task id -> (effective priority, arrival number)
+        order = []           # sorted (-effective priority, arrival number, task id) of the live tasks
+        arrival = 0
+        for i, op in enumerate(ops):
+            if i >= len(got):
+                return Failure('missing', '%s: no observation for op #%d %r (last: %r)' % (label, i, op, got[-1:]))
+            g = got[i]
+            kind = op[0]
+            if kind == 'a':
+                t = op[1]
+                if t in live:
+                    order.pop(bisect.bisect_left(order, (-live[t][0], live[t][1], t)))
+                    flags['churn'] = True
+                live[t] = (eff(op[2], key), arrival)
+                bisect.insort(order, (-live[t][0], arrival, t))
+                arrival += 1
+                want = '-'
+                tag = 'add'
+            elif kind == 'r':
+                t = op[1]
+                if t in live:
+                    order.pop(bisect.bisect_left(order, (-live[t][0], live[t][1], t)))
+                    del live[t]
+                    flags['churn'] = True
+                    want = '-'
+                else:
+                    want = 'KeyError'
+                tag = 'remove'
+            elif kind in 'pPkK':
+                if not live:
+                    want = 'd%d' % default_idx(op) if kind in 'PK' else 'IndexError'
+                    tag = 'empty'
+                else:
+                    t = order[0][2]
+                    if len(live) <= 48:   # cross-check the sorted bookkeeping with the definition itself
+                        hi = max(v[0] for v in live.values())
+                        t2 = min((v[1], k) for k, v in live.items() if v[0] == hi)[1]
+                        if t2 != t:
+                            raise InfraError('C10 oracle bookkeeping disagrees with the definition')
+                    if len(order) > 1 and order[1][0] == order[0][0]:
+                        flags['fifo_pop'] = True
+                    want = 't%d' % t
+                    tag = 'order'
+                    if g != want and g[:1] == 't' and g[1:].isdigit() and int(g[1:]) not in live:
+                        tag = 'dead-task'
+                    if kind in 'pP' and g == want:
+                        order.pop(0)
+                        del live[t]
+            elif kind == 'n':
+                want = 'n%d' % len(live)
+                tag = 'len'
+            else:
+                raise InfraError('unknown op %r' % (op,))
+            if g != want:
+                return Failure(tag, '%s (size factor %d%s): op #%d %r gave %s, expected %s (live tasks: %d)'
+                               % (label, sf, ', priority_key %s' % key if key else '', i, op, g, want, len(live)))
+        if len(got) != len(ops):
+            return Failure('missing', '%s: %d observations for %d ops (last %r)' % (label, len(got), len(ops), got[-1:]))
+        return None
+
     def _oracle_q(self, case, obs):
         ops = case['ops']
-        fifo_pop = churn = False
+        flags = {'fifo_pop': False, 'churn': False}
+        twin = case.get('twin')
         for name in ('S', 'H'):
-            got = obs[name]
-            live = {}            # task id -> (effective priority, arrival number)
-            order = []           # sorted (-effective priority, arrival number, task id) of the live tasks
-            arrival = 0
-            for i, op in enumerate(ops):
-                if i >= len(got):
-                    return Failure('missing', '%s: no observation for op #%d %r (last: %r)' % (name, i, op, got[-1:]))
-                g = got[i]
-                kind = op[0]
-                if kind == 'a':
-                    t = op[1]
-                    if t in live:
-                        order.pop(bisect.bisect_left(order, (-live[t][0], live[t][1], t)))
-                        churn = True
-                    live[t] = (eff(op[2]), arrival)
-                    bisect.insort(order, (-live[t][0], arrival, t))
-                    arrival += 1
-                    want = '-'
-                    tag = 'add'
-                elif kind == 'r':
-                    t = op[1]
-                    if t in live:
-                        order.pop(bisect.bisect_left(order, (-live[t][0], live[t][1], t)))
-                        del live[t]
-                        churn = True
-                        want = '-'
-                    else:
-                        want = 'KeyError'
-                    tag = 'remove'
-                elif kind in 'pPkK':
-                    if not live:
-                        want = 'd%d' % default_idx(op) if kind in 'PK' else 'IndexError'
-                        tag = 'empty'
-                    else:
-                        t = order[0][2]
-                        if len(live) <= 48:   # cross-check the sorted bookkeeping with the definition itself
-                            hi = max(v[0] for v in live.values())
-                            t2 = min((v[1], k) for k, v in live.items() if v[0] == hi)[1]
-                            if t2 != t:
-                                raise InfraError('C10 oracle bookkeeping disagrees with the definition')
-                        if len(order) > 1 and order[1][0] == order[0][0]:
-                            fifo_pop = True
-                        want = 't%d' % t
-                        tag = 'order'
-                        if g != want and g[:1] == 't' and g[1:].isdigit() and int(g[1:]) not in live:
-                            tag = 'dead-task'
-                        if kind in 'pP' and g == want:
-                            order.pop(0)
-                            del live[t]
-                elif kind == 'n':
-                    want = 'n%d' % len(live)
-                    tag = 'len'
-                else:
-                    raise InfraError('unknown op %r' % (op,))
-                if g != want:
-                    cls = 'SortedPriorityQueue' if name == 'S' else 'HeapPriorityQueue'
-                    return Failure(tag, '%s (size factor %d): op #%d %r gave %s, expected %s (live tasks: %d)'
-                                   % (cls, case['sf'], i, op, g, want, len(live)))
-            if len(got) != len(ops):
-                return Failure('missing', '%s: %d observations for %d ops (last %r)' % (name, len(got), len(ops), got[-1:]))
-        if obs['S'] != obs['H']:
+            cls = 'SortedPriorityQueue' if name == 'S' else 'HeapPriorityQueue'
+            f = self._oracle_stream(cls, case['sf'], ops, obs[name], case.get('key'), flags)
+            if f is not None:
+                return f
+            if twin:
+                if name + '2' not in obs:
+                    return Failure('missing', '%s: no observations of the second instance' % cls)
+                f = self._oracle_stream(cls + ' (second, interleaved instance)', case['sf'], twin['ops'],
+                                        obs[name + '2'], twin.get('key'), {})
+                if f is not None:
+                    return f
+        if obs['S'] != obs['H'] or (twin and obs['S2'] != obs['H2']):
             return Failure('differ', 'SortedPriorityQueue and HeapPriorityQueue disagree')
+        fifo_pop, churn = flags['fifo_pop'], flags['churn']
         st = self.stats
         st['Q_ops'] = st.get('Q_ops', 0) + len(ops)
+        safe = uses_falsy(case)
+        for fl, on in (('falsy_tasks', safe), ('custom_key', bool(case.get('key'))), ('twin_instance', bool(twin))):
+            if on:
+                st['Q_' + fl] = st.get('Q_' + fl, 0) + 1
         for op in ops:
             st['op_' + op[0]] = st.get('op_' + op[0], 0) + 1
             if op[0] in 'PK':
-                dk = 'default_%r_%s' % (default_of(op), 'kw' if len(op) > 2 and op[2] else 'pos')
+                dk = 'default_%r_%s' % (default_of(op, safe), 'kw' if len(op) > 2 and op[2] else 'pos')
                 st[dk] = st.get(dk, 0) + 1
+            elif op[0] == 'a':
+                if len(op) > 4 and op[4]:
+                    st['add_style_%d' % op[4]] = st.get('add_style_%d' % op[4], 0) + 1
+                pk = 'prio_' + type(prio_obj(op[2])).__name__
+                st[pk] = st.get(pk, 0) + 1
         for g in obs['S']:
             k = g if g in ('KeyError', 'IndexError') else ('d' if g[:1] == 'd' else None)
             if k:
@@ -592,7 +928,11 @@ class C10(Property):
         ops = case['ops']
         if len(ops) <= 40:
             return case
-        return {'k': case['k'], 'sf': case['sf'], 'ops_head': ops[:30], 'n_ops': len(ops)}
+        d = {'k': case['k'], 'sf': case.get('sf', 0), 'ops_head': ops[:30], 'n_ops': len(ops)}
+        for k in ('key', 'twin'):
+            if k in case:
+                d[k] = case[k] if k == 'key' else {'key': case[k].get('key'), 'n_ops': len(case[k]['ops'])}
+        return d
 
     # ------------------------------------------------------------------ shrinking
     def shrink(self, case):
@@ -619,6 +959,14 @@ class C10(Property):
         else:
             def fix(ops2):
                 return ops2
+            if case.get('twin'):
+                yield {k: v for k, v in case.items() if k != 'twin'}
+                tops = case['twin']['ops']
+                c2 = len(tops) // 2
+                while c2 >= 1:
+                    for i in range(0, len(tops), c2):
+                        yield dict(case, twin=dict(case['twin'], ops=tops[:i] + tops[i + c2:]))
+                    c2 //= 2
         chunk = n // 2
         while chunk >= 1:
             for i in range(0, n, chunk):
@@ -626,7 +974,7 @@ class C10(Property):
                 if len(cand) < n:
                     yield dict(case, ops=cand)
             chunk //= 2
-        if case['sf'] > 1:
+        if case.get('sf', 1) > 1:
             for sf in (1, 2, 4):
                 if sf < case['sf']:
                     yield dict(case, sf=sf)
